@@ -93,7 +93,14 @@ impl AssetCategorizer {
                 utxos_with_ada_overhead.push((current_utxo_index.clone(), ada_overhead));
             }
 
-            if let Some(assests) = &utxo.output.amount.multiasset {
+            // a bundle that is present but holds no asset (`{}` or `{policy: {}}`) is pure ADA
+            let holds_assets = utxo
+                .output
+                .amount
+                .multiasset
+                .as_ref()
+                .map_or(false, |ma| ma.0.iter().any(|(_, assets)| !assets.0.is_empty()));
+            if let (true, Some(assests)) = (holds_assets, &utxo.output.amount.multiasset) {
                 for policy in &assests.0 {
                     let mut current_policy_index = PolicyIndex(policy_count.clone());
                     if let Some(policy_index) = policy_ids.get(policy.0) {
